@@ -38,7 +38,7 @@ def make_top():
                     "polyply.src.build_file_parser:BuildDirector._rw_restriction"],
            rejects=(), must_cover=["tagged", "two geometry lines on one residue", "two rw lines", "unordered residues"],
            outside=["molecule indices / residue ids above 6", "more than two directive lines per kind"],
-           bounds={"quick": dict(hi=3, molnames=["P", "G"]), "thorough": dict(hi=5, molnames=["P", "G", "S"])},
+           bounds={"quick": dict(hi=3, molnames=["P", "G"]), "thorough": dict(hi=4, molnames=["P", "G", "S"])},
            budget={"quick": 280, "thorough": 1500})
 def build_file_ranges(sx, B):
     """Real read_build_file (BuildDirector) on a topology read by the real reader (repeated and interleaved molecule names, one
